@@ -10,7 +10,7 @@ trap "git -C /repo worktree remove --force $wt 2>/dev/null; rm -rf $wt" EXIT
 base_demo=$(cd /tmp && PYTHONPATH=$wt /venv/bin/python $src/demo.py >/dev/null 2>&1; echo $?)
 git -C $wt apply $src/patch.diff || { echo "$id: PATCH DOES NOT APPLY"; exit 2; }
 mut_demo=$(cd /tmp && PYTHONPATH=$wt /venv/bin/python $src/demo.py >/tmp/demo_$id.out 2>&1; echo $?)
-tests=$(cd $wt && /venv/bin/python -m pytest -q -p no:cacheprovider --timeout=900 --color=no 2>&1 | tail -1)
+tests=$(cd $wt && /venv/bin/python -m pytest -q -p no:cacheprovider --timeout=900 --color=no 2>&1 | grep -E "passed|failed" | tail -1)
 echo "$id: demo on clean tree exit=$base_demo, with change exit=$mut_demo, tests: $tests"
 verdicts=""
 cd /verif
